@@ -17,6 +17,9 @@ pub struct PosRef {
     /// quote value of the whole position at spot / 15-min TWAP (vAMM OutputAmount / OutputTwap)
     pub n_spot: Option<u128>,
     pub n_twap: Option<u128>,
+    /// the same 15-minute TWAP value recomputed by the harness from its own record of block-final reserves (main history
+    /// line only; None where the record or the 128-bit arithmetic gives no value)
+    pub n_twap_ref: Option<u128>,
 }
 
 impl PosRef {
@@ -123,6 +126,65 @@ impl FundingModel {
     }
 }
 
+/// Harness record of each vAMM's reserves at the end of every block in which they changed (what the vAMM's one-snapshot-per-
+/// block history must contain), built from the observations of the main history line: creation, then per block the final
+/// reserves. The 15-minute TWAP of a position's value is recomputed from it.
+#[derive(Clone, Debug, Default)]
+pub struct ReserveModel {
+    pub on: bool,
+    /// per vAMM: (time in seconds, block height, quote reserve, base reserve)
+    pub hist: Vec<Vec<(u64, u64, u128, u128)>>,
+}
+
+impl ReserveModel {
+    pub fn start(&mut self, obs: &Obs, created_at: u64, created_height: u64) {
+        self.on = true;
+        self.hist = obs.v.iter().map(|v| vec![(created_at, created_height, v.state.quote_asset_reserve.u128(), v.state.base_asset_reserve.u128())]).collect();
+    }
+    /// called once per executed step of the main history line
+    pub fn step(&mut self, pre: &Obs, post: &Obs) {
+        if !self.on {
+            return;
+        }
+        for v in 0..post.v.len() {
+            let (x0, y0) = (pre.v[v].state.quote_asset_reserve.u128(), pre.v[v].state.base_asset_reserve.u128());
+            let (x1, y1) = (post.v[v].state.quote_asset_reserve.u128(), post.v[v].state.base_asset_reserve.u128());
+            if (x0, y0) == (x1, y1) {
+                continue;
+            }
+            let h = &mut self.hist[v];
+            let last = h.len() - 1;
+            if h[last].1 == post.height {
+                h[last].2 = x1;
+                h[last].3 = y1;
+            } else {
+                h.push((post.time, post.height, x1, y1));
+            }
+        }
+    }
+    /// time-weighted mean over the last 15 minutes of the quote value of `amount` base (added to / removed from the pool)
+    pub fn output_twap(&self, v: usize, add: bool, amount: u128, now: u64, d: u128) -> Option<u128> {
+        if !self.on || v >= self.hist.len() {
+            return None;
+        }
+        let mut ph: Vec<(u64, u128)> = vec![];
+        // only the entries the window can reach are priced (the contract prices no others either)
+        let base = now.saturating_sub(900);
+        let h = &self.hist[v];
+        let mut first = 0;
+        for i in (0..h.len()).rev() {
+            first = i;
+            if h[i].0 <= base {
+                break;
+            }
+        }
+        for e in &h[first..] {
+            ph.push((e.0, crate::refmath::output_quote(e.2, e.3, d, add, amount)?));
+        }
+        Some(crate::refmath::twap_ref(&ph, now, 900).2)
+    }
+}
+
 /// `pos_ref` with the funding owed taken from the history model (see `FundingModel`) where the model knows the position.
 /// For observations of the main history line only (a what-if experiment does not advance the model).
 pub fn pos_ref_m(w: &World, obs: &Obs, v: usize, t: usize) -> Option<PosRef> {
@@ -131,6 +193,7 @@ pub fn pos_ref_m(w: &World, obs: &Obs, v: usize, t: usize) -> Option<PosRef> {
     if let Some(f) = w.fmodel.owed(v, t, signed, w.d) {
         pr.funding = f;
     }
+    pr.n_twap_ref = w.rmodel.output_twap(v, pr.long, pr.size, obs.time, w.d);
     Some(pr)
 }
 
@@ -160,6 +223,7 @@ pub fn pos_ref(w: &World, obs: &Obs, v: usize, t: usize) -> Option<PosRef> {
         funding: funding_owed(obs.v[v].cpf, l, s, w.d),
         n_spot,
         n_twap,
+        n_twap_ref: None,
     })
 }
 
